@@ -189,6 +189,8 @@ def _split_by_commas(ctx):
         for n in ('setParseAction', 'set_parse_action', 'addParseAction',
                   'add_parse_action'):
             interp.rebind_methods[n] = _rebind_parse_action
+        from .c18 import install_configurators
+        install_configurators(interp)
     outcomes, _i = extract(world, thunk, setup=setup)
     alphabet = ('a', 'b', ',', '"', '\\', ' ', 'a b', 'x,y', '', 'ab',
                 'a,,b', ',,', 'a\\"b', '\\"', '"\\', '\\\\"')
